@@ -1,6 +1,7 @@
 /* Expat as a parameter of the model: record the events Expat delivers for a byte string, with
  * exactly the parser configuration and handler set libwbxml uses (namespace separator '|').
  *   EXPAT <hexdoc>  ->  X <ok 0|1> <event>,<event>,...
+ *   EXPATN <hexdoc> ->  the same with a plain (non-namespace) parser: an independent XML reader for generated XML
  * events: D:<ver|~>:<enc|~>  Y:<sysid|~>:<pubid|~>  S:<idx>:<name>{;<an>=<av>}  E:<idx>:<name>  [  ]  C:<hex>  P
  */
 #include "hx.h"
@@ -31,12 +32,12 @@ int main(void)
     char *line;
     while ((line = hx_getline(stdin))) {
         char *verb = strtok(line, " "), *a1 = strtok(NULL, " ");
-        if (!verb || strcmp(verb, "EXPAT") || !a1) { puts("BADVERB"); free(line); continue; }
+        if (!verb || (strcmp(verb, "EXPAT") && strcmp(verb, "EXPATN")) || !a1) { puts("BADVERB"); free(line); continue; }
         {
             size_t n; unsigned char *doc = hx_unhex(a1, &n);
             char *buf = NULL; size_t blen = 0; int ok;
             out = open_memstream(&buf, &blen); nev = 0;
-            prs = XML_ParserCreateNS(NULL, '|');
+            prs = strcmp(verb, "EXPATN") ? XML_ParserCreateNS(NULL, '|') : XML_ParserCreate(NULL);   /* EXPATN: no namespace processing */
             XML_SetXmlDeclHandler(prs, decl);
             XML_SetStartDoctypeDeclHandler(prs, doctype);
             XML_SetElementHandler(prs, start, end);
